@@ -317,7 +317,12 @@ fn query_atom(ctx: &mut Ctx, rel: &str, arity: usize, dom: &[i64]) -> Atom {
 
 /// `.why` for every answer of a query over every derived relation (plus one stored relation now and
 /// then), and direct `build_proof_tree` calls with small depth limits.
-pub fn gen_why(ctx: &mut Ctx, p: &str) -> Vec<String> { let n = ctx.budget(420, 3000); gen_why_n(ctx, p, n) }
+pub fn gen_why(ctx: &mut Ctx, p: &str) -> Vec<String> {
+    let n = ctx.budget(420, 3000);
+    let mut out = gen_why_n(ctx, p, n);
+    out.extend(wide_fanout_requests(ctx, p));
+    out
+}
 
 pub fn gen_why_n(ctx: &mut Ctx, p: &str, n: usize) -> Vec<String> {
     let mut out = vec![];
@@ -348,12 +353,50 @@ pub fn gen_why_n(ctx: &mut Ctx, p: &str, n: usize) -> Vec<String> {
     out
 }
 
+/// Wide fan-out shapes (few per run): the first body atom matches 70–200 stored tuples under the head
+/// bindings and exactly ONE candidate — first, middle or last in storage order — survives the later
+/// atoms. `two(X,Z) <- hop(X,Y), good(Y,Z)` and `three(X,W) <- hop(X,Y), mid(Y,Z), good(Z,W)`; the single
+/// answer must get a complete depth-2 proof (a cap on the number of partial proofs per body atom would
+/// drop the late candidate and leave an unexplained `Fact{Derived}` root).
+pub fn wide_fanout_requests(ctx: &mut Ctx, p: &str) -> Vec<String> {
+    let mut out = vec![];
+    let (x, y, z, w) = (v("X"), v("Y"), v("Z"), v("W"));
+    let shapes: Vec<(usize, usize, bool)> = if ctx.thorough {
+        vec![(70, 70, false), (130, 1, false), (130, 65, false), (130, 130, false), (200, 200, false), (200, 66, false), (130, 1, true), (130, 70, true), (130, 130, true), (200, 199, true)]
+    } else {
+        vec![(70, 70, false), (130, 1, false), (130, 65, false), (130, 130, false), (200, 200, false), (130, 1, true), (130, 70, true), (130, 130, true)]
+    };
+    for (n, k, three) in shapes {
+        let mut items: Vec<Item> = vec![];
+        for i in 1..=n as i64 { items.push(fact("hop", &[1, 100 + i])); }
+        // a second source node so that the head binding matters
+        items.push(fact("hop", &[2, 100 + k as i64]));
+        if three {
+            for i in 1..=n as i64 { items.push(fact("mid", &[100 + i, 500 + i])); }
+            items.push(fact("good", &[500 + k as i64, 7]));
+            items.push(fact("good", &[999, 8]));
+            items.push(rule(atom("three", vec![x.clone(), w.clone()]), vec![pos("hop", vec![x.clone(), y.clone()]), pos("mid", vec![y.clone(), z.clone()]), pos("good", vec![z.clone(), w.clone()])]));
+            let iw = items.iter().map(item_to_wire).collect::<Vec<_>>().join(" ; ");
+            out.push(format!("{p}.why three(V.X,V.W) | {}", iw));
+        } else {
+            items.push(fact("good", &[100 + k as i64, 7]));
+            items.push(fact("good", &[999, 8]));
+            items.push(rule(atom("two", vec![x.clone(), z.clone()]), vec![pos("hop", vec![x.clone(), y.clone()]), pos("good", vec![y.clone(), z.clone()])]));
+            let iw = items.iter().map(item_to_wire).collect::<Vec<_>>().join(" ; ");
+            out.push(format!("{p}.why two(V.X,V.Z) | {}", iw));
+        }
+        ctx.count("wide_fanout");
+    }
+    out
+}
+
 /// C22: the C21 requests plus, for every derived relation of recursive / chained programs, direct
 /// `build_proof_tree` calls for EVERY tuple of the domain at depth limits 1..6 (the Lean side keeps
 /// the tuples that are true and whose reference depth is within the limit), and long-chain programs
 /// whose derivations reach the handler's limit of 50.
 pub fn gen_complete(ctx: &mut Ctx, p: &str) -> Vec<String> {
     let mut out = gen_why_n(ctx, p, ctx.budget(220, 1500));
+    out.extend(wide_fanout_requests(ctx, p));
     let n = ctx.budget(60, 300);
     for i in 0..n {
         let prog = gen_prog(ctx, i * 5 + (i % 2)); // directed shapes twice as often
